@@ -255,7 +255,7 @@ def _impl_one(case):
 # the property's oracle, on the real before / after files
 # ------------------------------------------------------------------------------------------------
 DEF_KINDS = ("FunctionDefinitionStart", "ClassDefinitionStart")
-PRIORITY = ["unaligned", "stray-arrow", "wrong-open-paren", "same-line-tail", "indent-sample-not-statement", "indent-under-4", "docstring-not-triple-quoted",
+PRIORITY = ["unaligned", "stray-arrow", "wrong-open-paren", "node-spans-two-definitions", "same-line-tail", "indent-sample-not-statement", "indent-under-4", "docstring-not-triple-quoted",
             "triple-quote-in-docstring", "header-last-node", "async-docstring-removed", "header-resynth",
             "docstring-removed", "return-type-changed"]
 
@@ -391,6 +391,10 @@ def ast_diff(before_erased: ast.Module, after_erased: ast.Module):
             ab, aa = nb.args, na.args
             resynth = (not aa.defaults and not aa.kw_defaults and not aa.kwonlyargs and aa.vararg is None and aa.kwarg is None and not aa.posonlyargs
                        and [x.arg for x in aa.args] == [x.arg for x in ab.args])
+            if resynth:
+                # the re-synthesis is triggered by a change of parameter annotations (the only thing DocTrans does to a signature);
+                # `_ann` attributes were put on the erased trees by `oracle`
+                resynth = "ann-changed" if getattr(nb, "_anns", None) != getattr(na, "_anns", None) else "ann-same"
             for f in ("posonlyargs", "args", "kwonlyargs"):
                 if [x.arg for x in getattr(ab, f)] != [x.arg for x in getattr(aa, f)]:
                     out.append((f, p, nb.lineno, resynth))
@@ -483,6 +487,12 @@ def align(nb, na, parses):
                 fl.append("stray-arrow")
             if _wrong_open_paren(x["value"]):
                 fl.append("wrong-open-paren")
+            import re
+
+            if len(re.findall(r"(?:^|\n)[ \t]*(?:(?:async[ \t]+)?def|class)[ \t]", x["value"])) > 1:
+                # the scanner glued two definitions into one node (a decorated one-line stub is not flushed); the header is then
+                # compared with the *first* definition's signature (`ast_parse(...).body[0]`)
+                fl.append("node-spans-two-definitions")
             bp, ap = x["value"][: max(x["value"].rfind(")"), 0)], y["value"][: max(y["value"].rfind(")"), 0)]
             fl.append("header-resynth" if bp != ap else "return-type-changed")
             s, e = span(y)
@@ -573,14 +583,18 @@ def cause_of_line_diff(src, nb, changes):
     return "none"
 
 
-def cause_for_def(changes, name, lineno, body: bool):
+def flags_for_def(changes, name, lineno, body: bool):
     """flags of the changes made to one definition: of its docstring slot when its body differs, of its header otherwise"""
     fl = []
     for c in changes:
         h = c["hdr"]
         if h is not None and h["name"] == name and lineno is not None and h["start"] <= lineno <= h["stop"] and (c["what"] != "header") == body:
             fl += c["flags"]
-    return _first_flag(fl)
+    return fl
+
+
+def cause_for_def(changes, name, lineno, body: bool):
+    return _first_flag(flags_for_def(changes, name, lineno, body))
 
 
 def oracle(src: str, r: dict):
@@ -606,15 +620,29 @@ def oracle(src: str, r: dict):
         fails.append(({"clause": "valid-python", "cause": cause_of_invalid(r["nodes_before"], changes) if changes else "none"},
                       "output is not valid Python: %s (line %s)" % (getattr(e, "msg", e), ln)))
         return fails
-    eb, ea = erase(ast.parse(src)), erase(ast.parse(after))
+    tb2, ta2 = ast.parse(src), ast.parse(after)
+    for t in (tb2, ta2):  # remember the parameter annotations before erasing them
+        for n in ast.walk(t):
+            if isinstance(n, (ast.FunctionDef, ast.AsyncFunctionDef)):
+                n._anns = [None if a.annotation is None else ast.dump(a.annotation) for a in n.args.args]
+    eb, ea = erase(tb2), erase(ta2)
     if ast.dump(eb) != ast.dump(ea):
         for field, path, lineno, resynth in ast_diff(eb, ea):
             if field == "definitions":
                 # a definition vanished / appeared: only a header rewrite that cut at the wrong parenthesis / arrow can do that
                 cause = _first_flag([f for c in changes if c["what"] == "header" for f in c["flags"] if f in ("wrong-open-paren", "stray-arrow")])
+            elif field == "statements" and not path:
+                # a new module-level statement: a docstring appended after a header node that swallowed the rest of the file
+                cause = _first_flag([f for c in changes if c["what"] != "header" for f in c["flags"] if f == "header-last-node"])
             else:
                 cause = "header-resynth" if resynth else (cause_for_def(changes, path[-1], lineno, field == "statements") if path else "none")
-            fails.append(({"clause": "ast-erase", "field": field, "cause": cause},
+            sig = {"clause": "ast-erase", "field": field, "cause": cause}
+            if resynth:
+                if path and "node-spans-two-definitions" in flags_for_def(changes, path[-1], lineno, False):
+                    sig["cause"] = "node-spans-two-definitions"
+                else:
+                    sig["trigger"] = resynth
+            fails.append((sig,
                           "syntax tree differs after erase: %s of %s" % (field, ".".join(path) if path else "<module>")))
     cb, ca = comments_of(src), comments_of(after)
     if cb != ca:
@@ -680,6 +708,9 @@ WITNESSES = [
     ("w-two-defs-one-node", ["C07-wrong-open-paren-definitions", "C07-wrong-open-paren-lines"],
      '@cache\ndef f1(\n    path_to,\n    n_items,\n) -> "Forward": ...  # stub\n@dec  #no space\nasync def f2(dataset_name, verbose=os.sep, *args: int):\n  """ """\n  import os\n',
      ("google", True, None), None),
+    ("w-two-defs-wrong-signature", ["C07-two-definitions-one-node"],
+     '@cache\ndef f1() -> int: ...  # stub\n@a.b\nasync def f2(a=1, *args) -> str:\n    """Do the thing.\n\n    Returns:\n      str: x\n    """\n    return None\n',
+     ("google", True, None), None),
     ("w-header-comment", ["C07-resynth-comment"], "def f(\n    a,  # first\n):\n" + REST_DOC + "    pass\n", ("rest", True, None), "def f(a: int):"),
     ("w-tail-comment", ["C07-tail-invalid"], "def g(a):  # c\n    return a\n", ("rest", False, None), None),
     ("w-tail-docstring", ["C07-tail-statements", "C07-tail-lines"], 'def g(a):  # c\n  """Doc.\n\n  :param a: the a\n  :type a: ```int```\n  """\n  return a\n',
@@ -695,6 +726,8 @@ WITNESSES = [
      'class C:\n    r"""Doc \\d."""\n    x = 1\n\ndef h(a):\n' + REST_DOC + "    return a\n", ("rest", True, None), None),
     ("w-triple-dq-inside", ["C07-triple-quote-in-docstring"],
      "def g(a):\n    \'\'\'Say \"\"\"hi\"\"\" to a.\n\n    :param a: the a\n    :type a: ```int```\n    \'\'\'\n    return a\n", ("rest", True, None), None),
+    ("w-unbalanced-comment", ["C07-header-last-node-statements", "C07-header-last-node-lines"],
+     "def h(a):\n" + REST_DOC + '    return a\n\nclass C(Base):  # 1) note\n    """Doc."""\n    x = 1\n', ("rest", True, None), None),
     ("w-async-sole", ["C07-async-sole-docstring"], 'async def g(a):\n    """Doc."""\n\ndef h(a):\n' + REST_DOC + "    return a\n", ("rest", True, None), None),
     ("w-stub-atomic", [], "def s(a): ...\n\ndef h(a):\n" + REST_DOC + "    return a\n", ("rest", True, None), None),
 ]
@@ -712,7 +745,7 @@ def gen_cases(chk: core.Check):
 
     for wid, _, src, cfg, _ in WITNESSES:
         add(src, cfg, "witness", [wid], wid=wid)
-    n_single, n_grid, n_fail, n_mut = (2400, 150, 400, 300) if chk.quick else (24000, 1500, 4000, 3000)
+    n_single, n_grid, n_fail, n_mut = (4000, 250, 600, 500) if chk.quick else (24000, 1500, 4000, 3000)
     for _ in range(n_single):
         src, feats = c07mod.gen_module(rng)
         add(src, rng.choice(CONFIGS), "structured", feats)
@@ -804,8 +837,21 @@ def ast_request(c, r):
                     rtys[p] = s["returns"]
                 walk(s["body"], path + [s["name"]])
 
+    def opaque_has_rewritable(stmts):
+        """a statement kept as text (if/for/with/try …) that contains something DocTrans rewrites: outside the flat model's domain"""
+        for s in stmts:
+            if s["k"] == "other":
+                try:
+                    if any(isinstance(n, (ast.AnnAssign, ast.FunctionDef, ast.AsyncFunctionDef, ast.ClassDef)) for n in ast.walk(ast.parse(s["src"]))):
+                        return True
+                except (SyntaxError, ValueError):
+                    return True
+            elif s["k"] in ("fn", "cls") and opaque_has_rewritable(s["body"]):
+                return True
+        return False
+
     walk(new, [])
-    if dup[0]:
+    if dup[0] or opaque_has_rewritable(orig):
         return None
     return {"op": "c07.doctrans_ast", "module": orig, "type_annotations": bool(c["ta"]), "new_doc": docs, "param_typ": ptys, "return_typ": rtys}
 
